@@ -16,6 +16,8 @@
 //!                                       hide: 0 printed, 1 in a branch that is not taken, 2 behind a short-circuit;
 //!                                       expected = what the expression prints when it is rendered on its own)
 //!          | "fuse"                    (`{{ fuse() }}`: prints nothing; fails at its k-th call while the harness has it armed)
+//!          | "tryb" n k                (`{{ try_block("b<n>", k) }}`: a function with `&mut State` renders block n with the fuse
+//!                                       armed at k, swallows whatever happens and prints nothing: the State stays in use)
 //! extends modes: s static name, d name from a variable, c `{% if c0/c1 %}`, q `{% if 3 is number/string %}` (decided by a test)
 //! arg     := kind k cand..    kind: str sc lit tup ctx slice rev lazy once rep map ctxmap pobj plain
 //! cand    := t (the string naming template t) | "!i" (42) | "!n" (none) | "!u" (undefined) | "!b" (true)
@@ -127,6 +129,8 @@ enum Item {
     Fx(u8, String),
     /// `{{ fuse() }}`
     Fuse,
+    /// `{{ try_block("b<n>", k) }}`
+    TryBlock(usize, usize),
 }
 use Item::*;
 
@@ -172,6 +176,23 @@ static FUSE_CALLS: std::sync::atomic::AtomicUsize = std::sync::atomic::AtomicUsi
 fn fuse_arm(k: usize) {
     FUSE_CALLS.store(0, std::sync::atomic::Ordering::SeqCst);
     FUSE_AT.store(k, std::sync::atomic::Ordering::SeqCst);
+}
+
+/// A helper as applications write them: render a block on the running State, fall back to nothing
+/// when it fails.  Here the result is dropped in both cases, so the call prints nothing and — a
+/// render of a block leaves no variables behind — must not change anything that follows.  While
+/// the call runs the fuse is armed at `k` (unless the recovery stream has it armed already).
+fn try_block(state: &mut minijinja::State, name: &str, k: usize) -> Value {
+    use std::sync::atomic::Ordering::SeqCst;
+    let outer = FUSE_AT.load(SeqCst);
+    if outer == 0 {
+        fuse_arm(k);
+    }
+    let _ = state.render_block(name);
+    if outer == 0 {
+        fuse_arm(0);
+    }
+    Value::from_safe_string(String::new())
 }
 
 fn fuse() -> Result<Value, Error> {
@@ -339,6 +360,11 @@ fn ser_item(it: &Item, out: &mut Vec<String>) {
             out.push(fx_expected(name));
         }
         Fuse => out.push("fuse".into()),
+        TryBlock(n, k) => {
+            out.push("tryb".into());
+            out.push(n.to_string());
+            out.push(k.to_string());
+        }
     }
 }
 
@@ -448,6 +474,7 @@ impl<'a> Toks<'a> {
                 Fx(hide, name)
             }
             "fuse" => Fuse,
+            "tryb" => TryBlock(self.num()?, self.num()?),
             other => return Err(format!("bad item tag {other}")),
         })
     }
@@ -642,6 +669,7 @@ fn print_items(pr: &Pr, t: &Tmpl, items: &[Item], used: &mut Vec<usize>, out: &m
                 }
             },
             Fuse => out.push_str(&pr.var("fuse()")),
+            TryBlock(n, k) => out.push_str(&pr.var(&format!("try_block(\"b{n}\", {k})"))),
             CallBlock(n) => {
                 used.push(*n);
                 let body = t.blocks.get(n).expect("block body in table");
@@ -984,6 +1012,7 @@ fn make_env(
 ) -> Result<Environment<'static>, Error> {
     let mut env = Environment::new();
     env.add_function("fuse", fuse);
+    env.add_function("try_block", try_block);
     for a in args.iter().filter(|a| a.needs_global()) {
         env.add_global(a.global(), arg_value(pr, a));
     }
@@ -2709,7 +2738,15 @@ fn recovery_families(out: &mut Vec<Case>) {
                                 b1.push(Fuse);
                             }
                         }
+                        // the same inside ONE render: the layout of the root first tries the block
+                        // through the helper (the fuse fails at its k-th call), then renders it
+                        let mut inr = tmpls.clone();
+                        inr[len - 1].layout.insert(0, TryBlock(0, 1 + (code + pos) % 2));
+                        if nest {
+                            inr[len - 1].layout.insert(0, TryBlock(1, 1));
+                        }
                         out.push(Case { fam: "recover".into(), tmpls });
+                        out.push(Case { fam: "recover-in-render".into(), tmpls: inr });
                     }
                 }
             }
@@ -2721,6 +2758,7 @@ fn recovery_families(out: &mut Vec<Case>) {
 /// templates it includes / imports: any template, layout or block body, bare or wrapped in a loop / macro call / autoescape block
 fn decorate(rng: &mut Rng, c: &mut Case, len: usize) {
     let kind = if rng.chance(1, 2) { 'f' } else { 't' };
+    let plain = !c.fam.contains("+x");
     for j in 0..c.tmpls.len() {
         let t = &mut c.tmpls[j];
         // templates that cannot be loaded and pruned stubs stay as they are; the templates a
@@ -2757,6 +2795,17 @@ fn decorate(rng: &mut Rng, c: &mut Case, len: usize) {
                 let pos = rng.below(t.layout.len() as u64 + 1) as usize;
                 insert_at(&mut t.layout, pos, items);
             }
+        }
+        // a helper that renders a block on the running State and swallows its failure: only at
+        // the top level of a template of the chain (inside block bodies it would recurse), and
+        // only in chains without include / import snippets (an included template that extends
+        // the chain runs the layout — and the helper — again from inside the block: every level
+        // swallows the recursion-limit error of the one below and carries on, exponentially)
+        if plain && j < len && rng.chance(1, 3) {
+            let n = rng.below(3) as usize;
+            let k = 1 + rng.below(3) as usize;
+            let pos = rng.below(t.layout.len() as u64 + 1) as usize;
+            t.layout.insert(pos, TryBlock(n, k));
         }
         // an extends decided by a test instead of a variable
         if rng.chance(1, 3) {
